@@ -367,6 +367,7 @@ impl Reporter for Rep {
         let n = b[idx].recs.len();
         drop(b);
         sim::log_ev(sim::K_REPORT, idx as u64, n as u64);
+        sim::report_stall(idx);
     }
 }
 
